@@ -953,7 +953,9 @@ class EmulsionTimeCourse:
         with h5py.File(path, "r") as fp:
             # load the actual emulsion data and iterate in the right order
             for key in display_progress(
-                sorted(fp.keys()), total=len(fp), enabled=progress
+                sorted(fp.keys(), key=lambda k: (len(k), k)),
+                total=len(fp),
+                enabled=progress,
             ):
                 dataset = fp[key]
                 obj.append(
